@@ -214,7 +214,7 @@ def replay_all(lines: list) -> list:
             current, finished = None, False
             try:
                 while True:
-                    if not parent.poll(30):
+                    if not parent.poll(180):
                         break  # hung
                     try:
                         kind, i, r = parent.recv()
